@@ -126,7 +126,7 @@ Proof. unfold shiftL. apply map_rev. Qed.
 Lemma shiftL_app k l1 l2 : shiftL k (l1 ++ l2) = shiftL k l1 ++ shiftL k l2.
 Proof. unfold shiftL. apply map_app. Qed.
 
-Definition move_op (k : nat) (r : result aerr (list hv * list hv)) : result aerr (list hv * list hv) :=
+Definition move_op (k : nat) (r : result xerr (list hv * list hv)) : result xerr (list hv * list hv) :=
   match r with Ok (l', pr) => Ok (shiftL k l', shiftL k pr) | Err e => Err e end.
 
 Lemma apply_op_shift k o l : apply_op o (shiftL k l) = move_op k (apply_op o l).
@@ -154,7 +154,7 @@ Proof.
 Qed.
 
 (* ---- one cell ---- *)
-Definition move_heap {T} (pre : heap) (r : result aerr (heap * T)) : result aerr (heap * T) :=
+Definition move_heap {T} (pre : heap) (r : result xerr (heap * T)) : result xerr (heap * T) :=
   match r with Ok (h, x) => Ok (reloc pre h, x) | Err e => Err e end.
 
 Lemma do_ops_reloc pre ops : forall h a,
@@ -213,23 +213,23 @@ Fixpoint bind_f (c : list (str * str * nv)) (h : heap) : env * heap :=
     ((x, fst p) :: fst q, snd q)
   end.
 
-Definition iterlist_f (e : env) (src : lsrc) (h : heap) : result aerr (list hv * heap) :=
+Definition iterlist_f (e : env) (src : lsrc) (h : heap) : result xerr (list hv * heap) :=
   match src with
   | LLit t =>
     let p := alloc (split_into_lists t) h in
     match fst p with
-    | HS _ => Err AUnsupported
-    | HR a => match hget (snd p) a with Some l => Ok (l, snd p) | None => Err AStop end
+    | HS _ => Err XUnsupported
+    | HR a => match hget (snd p) a with Some l => Ok (l, snd p) | None => Err XStop end
     end
   | LVar x =>
     match env_get e x with
-    | None => Err AStop
-    | Some (HS _) => Err AUnsupported
-    | Some (HR a) => match hget h a with Some l => Ok (l, h) | None => Err AStop end
+    | None => Err XStop
+    | Some (HS _) => Err XUnsupported
+    | Some (HR a) => match hget h a with Some l => Ok (l, h) | None => Err XStop end
     end
   end.
 
-Definition run_item_f (e : env) (h : heap) (it : item) : result aerr (heap * list obs) :=
+Definition run_item_f (e : env) (h : heap) (it : item) : result xerr (heap * list obs) :=
   match it with
   | IMsg x s ops =>
     match target h e x s with
@@ -243,7 +243,7 @@ Definition run_item_f (e : env) (h : heap) (it : item) : result aerr (heap * lis
     end
   end.
 
-Fixpoint run_items_f (e : env) (h : heap) (its : list item) : heap * result aerr (list obs) :=
+Fixpoint run_items_f (e : env) (h : heap) (its : list item) : heap * result xerr (list obs) :=
   match its with
   | [] => (h, Ok [])
   | it :: r =>
@@ -255,7 +255,7 @@ Fixpoint run_items_f (e : env) (h : heap) (its : list item) : heap * result aerr
     end
   end.
 
-Definition run_inst_f (h : heap) (i : inst) : heap * result aerr (list obs) :=
+Definition run_inst_f (h : heap) (i : minst) : heap * result xerr (list obs) :=
   let p := bind_f (i_ctx i) h in run_items_f (fst p) (snd p) (i_items i).
 
 (* the bridge: under such a policy the process state beyond the heap is neither read nor written *)
@@ -373,7 +373,7 @@ Proof. unfold run_alone. rewrite (run_inst_bridge fresh_policy eq_refl eq_refl).
 (* ---- the theorems ---- *)
 
 (* one instance, in whatever state the process is: what it yields alone *)
-Theorem instance_state_free (pol : policy) (st : pstate) (i : inst) :
+Theorem instance_state_free (pol : policy) (st : pstate) (i : minst) :
   policy_fresh pol = true -> snd (run_inst pol st i) = run_alone i.
 Proof.
   unfold policy_fresh. intros H. apply andb_prop in H. destruct H as [Hc Hl].
@@ -382,7 +382,7 @@ Qed.
 
 (* the instances of a run: each yields what it yields alone; the run ends at the first that fails *)
 Theorem run_all_isolated (pol : policy) : policy_fresh pol = true ->
-  forall (is : list inst) (st : pstate), run_all pol st is = cut (map run_alone is).
+  forall (is : list minst) (st : pstate), run_all pol st is = cut (map run_alone is).
 Proof.
   intros H is. induction is as [|i r IH]; intros st; [reflexivity|].
   cbn [run_all map cut]. rewrite (instance_state_free pol st i H).
@@ -391,12 +391,12 @@ Proof.
 Qed.
 
 (* history-independence: the outcome of an instance after one history of the process = after another *)
-Corollary instance_history_free (pol : policy) (st1 st2 : pstate) (i : inst) :
+Corollary instance_history_free (pol : policy) (st1 st2 : pstate) (i : minst) :
   policy_fresh pol = true -> snd (run_inst pol st1 i) = snd (run_inst pol st2 i).
 Proof. intros H. rewrite !(instance_state_free pol _ i H). reflexivity. Qed.
 
 (* in particular the order in which two instances are generated does not matter to either *)
-Corollary two_instances_commute (pol : policy) (st : pstate) (i j : inst) os_i os_j :
+Corollary two_instances_commute (pol : policy) (st : pstate) (i j : minst) os_i os_j :
   policy_fresh pol = true ->
   run_all pol st [i; j] = [Ok os_i; Ok os_j] -> run_all pol st [j; i] = [Ok os_j; Ok os_i].
 Proof.
@@ -408,7 +408,7 @@ Qed.
 Lemma as_coded_fresh : policy_fresh as_coded = true.
 Proof. vm_compute. reflexivity. Qed.
 
-Theorem as_coded_isolated (is : list inst) (st : pstate) : run_all as_coded st is = cut (map run_alone is).
+Theorem as_coded_isolated (is : list minst) (st : pstate) : run_all as_coded st is = cut (map run_alone is).
 Proof. apply run_all_isolated. exact as_coded_fresh. Qed.
 
 (* ---- examples: the seeded scenarios ---- *)
@@ -422,9 +422,9 @@ Definition s_Q : str := [81].
 
 (* a template whose loop over a literal two-level list takes every pair apart with pop(), twice:
    "Send {{ pair.pop() }} for {{ pair.pop() }}" *)
-Definition quiz : inst := mk_inst [] [ILoop (LLit s_lit) [MPop; MPop]].
+Definition quiz : minst := mk_minst [] [ILoop (LLit s_lit) [MPop; MPop]].
 (* a template that appends to a list field of its data row and shows it *)
-Definition grow : inst := mk_inst [(s_items, s_key, Lst [Str [97]; Str [98]])] [IMsg s_items SelSelf [MAppend s_Q]].
+Definition grow : minst := mk_minst [(s_items, s_key, Lst [Str [97]; Str [98]])] [IMsg s_items SelSelf [MAppend s_Q]].
 
 Definition alias_example : Prop :=
   (* objects of their own: the second instance yields what the first one does, each pair popped apart *)
@@ -434,7 +434,7 @@ Definition alias_example : Prop :=
   (* the lists of the literal cell kept by cell text: the second instance finds them empty, pop() raises *)
   /\ run_all (mk_policy true false) ps_empty [quiz; quiz]
      = [Ok [mk_obs [Str [114]; Str [82; 101; 100]] (Lst []); mk_obs [Str [103]; Str [71; 114; 101; 101; 110]] (Lst [])];
-        Err AStop]
+        Err XStop]
   (* the same data row instantiated twice *)
   /\ run_all fresh_policy ps_empty [grow; grow]
      = [Ok [mk_obs [] (Lst [Str [97]; Str [98]; Str s_Q])]; Ok [mk_obs [] (Lst [Str [97]; Str [98]; Str s_Q])]]
@@ -442,7 +442,7 @@ Definition alias_example : Prop :=
   /\ run_all (mk_policy false true) ps_empty [grow; grow]
      = [Ok [mk_obs [] (Lst [Str [97]; Str [98]; Str s_Q])]; Ok [mk_obs [] (Lst [Str [97]; Str [98]; Str s_Q; Str s_Q])]]
   (* inside ONE instance the loop variable is the entry of the instance's own list: the change is seen *)
-  /\ run_alone (mk_inst [(s_items, s_key, Lst [Lst [Str [97]]; Lst [Str [98]]])]
+  /\ run_alone (mk_minst [(s_items, s_key, Lst [Lst [Str [97]]; Lst [Str [98]]])]
                         [ILoop (LVar s_items) [MAppend s_Q]; IMsg s_items SelLast []])
      = Ok [mk_obs [] (Lst [Str [97]; Str s_Q]); mk_obs [] (Lst [Str [98]; Str s_Q]); mk_obs [] (Lst [Str [98]; Str s_Q])].
 
